@@ -204,13 +204,15 @@ class Ctx(object):
             return False
         raise PathAbort('infeasible path')
 
-    def choose(self, n, name='ch'):
-        """Nondeterministic choice in range(n): a fresh solver variable, case-split ascending."""
+    def choose(self, n, name='ch', raw_name=False):
+        """Nondeterministic choice in range(n): a fresh solver variable, balanced case-split.
+        raw_name: the caller guarantees that `name` is unique on the path (used when the variable must be
+        identified by a program location rather than by its position in the run, e.g. scheduler decisions)."""
         if n <= 1:
             return 0
         w = max(1, (n - 1).bit_length())
         self.nchoose += 1
-        vname = '%s#%d' % (name, self.nchoose)
+        vname = name if raw_name else '%s#%d' % (name, self.nchoose)
         if self.concrete is not None:
             return min(n - 1, int(self.concrete.get(vname, 0)))
         v = self.fresh_bv(vname, w)
